@@ -409,7 +409,7 @@ func runReal(env *realEnv, sc realScen, r *mrand.Rand, w *ndWriter, pw *ndWriter
 			}()
 			ctx, cancel := context.WithTimeout(context.Background(), watchdogLimit())
 			defer cancel()
-			conn, err := ech.NewConn(ctx, below, ech.WithKeys(keys))
+			conn, err := ech.NewConn(ctx, below, keyOptions(keys)...)
 			if err != nil {
 				sr.err = "NewConn: " + err.Error()
 				below.Close()
